@@ -43,6 +43,11 @@ func roleNormalise(fn *ssa.Function, t *Term) *Term {
 
 func runC01(r *Report, tier string) {
 	P := r.P
+	// round 6: keys built from COSE_Key, and what Sign leaves behind
+	r.rule("R14.3", "(shared with C14) a key that went through Key.MarshalCBOR is still the key: x, y and d are left-padded to the size of the key's own curve (a right-padded d decodes to another scalar, and a message signed with it does not verify).")
+	checkKeyPadding(r, "R14.3")
+	r.rule("R18.2", "(shared with C18) a structure's Sign writes only its signature and its own protected map: the retained raw header bytes the ToBeSigned was built from are still there when Verify and the encoder read them.")
+	checkSignWrites(r, "R18.2")
 	r.rule("R01.1", "sign/verify builder agreement: for each structure kind (Sign1, Signature, full and abbreviated countersignature) the content terms at the sign and verify key sites are equal after renaming parameters by role; the verify site's signature operand is the receiver's Signature field (the abbreviated form: its signature parameter); untagged Sign1 and COSE_Sign delegate to those methods.")
 	r.rule("R01.2", "signed bytes = emitted bytes: the encoder's protected slot is the same ProtBytes(recv.Headers) that the ToBeSigned term reads; no write to Headers.Protected / RawProtected / Payload can execute after the builder was called; the sign-and-encode helpers encode the very message they signed.")
 	r.rule("R01.3", "wire slots are the message fields: encoder slots Payload/Signature are the receiver's fields and the bucket slots the bucket marshalers' results; decoder fields come from the same-named slots of the decoded wire struct; slot types are RawMessage for buckets and the bstr/nil type for payload and signature (nil <-> f6, detached payloads survive).")
